@@ -258,6 +258,32 @@ pub fn dense_runs(tier: Tier) -> Vec<LzInput> {
     v
 }
 
+/// DENSE displacement sweep for the compressors: d non-repeating bytes, then a copy of the first m
+/// of them (the only match available lies exactly d bytes back), then t fresh bytes — for EVERY
+/// d in 1..=4200. A displacement encoded wrongly for one residue class (d = 256k, 256k+1, ...)
+/// is a point of this family; beyond 4096 the copy must come out as literals.
+pub fn dense_displacements(tier: Tier) -> Vec<LzInput> {
+    let filler = norepeat(4200 + 300, 9);
+    let tail = [0xF1u8, 0xF3, 0xF5];
+    let ms: Vec<usize> = match tier {
+        Tier::Quick => vec![16],
+        Tier::Thorough => vec![3, 16, 19, 273],
+    };
+    let mut v = Vec::new();
+    for d in 1..=4200usize {
+        for &m in &ms {
+            let mut data = filler[..d].to_vec();
+            for _ in 0..m {
+                let b = data[data.len() - d];
+                data.push(b);
+            }
+            data.extend_from_slice(&tail[..2]);
+            v.push(LzInput { family: "dense-disp", desc: format!("d={} m={} t=2", d, m), data });
+        }
+    }
+    v
+}
+
 /// "Twin blocks": two blocks that differ in exactly two adjacent bytes chosen so that the blocks
 /// have the SAME polynomial fingerprint h = h*M + byte for a common multiplier M (31: "Aa"/"BB",
 /// 33, 37, 131) — a match finder that trusts a fingerprint without comparing bytes emits a
